@@ -26,8 +26,8 @@ CHECK_DEADLOCK FALSE
 
 def gen_docs(lo: int, hi: int, with_props: bool, rep: core.Report, module: str = 'MC_GenDoc',
              with_comments: bool = False) -> List[Tuple[int, Any]]:
-    res = tlc.require_ok(tlc.run(module, cfg_text=GEN_CFG % (lo, hi, 'TRUE' if with_props else 'FALSE', 'TRUE' if with_comments else 'FALSE'),
-                                 workers=core.NCPU, timeout=3000), module)
+    res = tlc.require_ok(tlc.run_sharded(module, lambda a, b: GEN_CFG % (a, b, 'TRUE' if with_props else 'FALSE', 'TRUE' if with_comments else 'FALSE'),
+                                         lo, hi, timeout=3000), module)
     if res.violated:
         raise core.Machinery('design-level property %s violated in %s\n%s' % (res.violated, module, res.out[-3000:]))
     rep.add_tlc('%s seeds %d..%d props=%s' % (module, lo, hi, with_props), res)
@@ -53,7 +53,7 @@ CHECK_DEADLOCK FALSE
 
 def gen_faults(lo: int, hi: int, rep: core.Report):
     """single-fault documents (GenFault.tla); TLC checks Ruled on each. -> [(id, {'doc':..., 'kind':...})]"""
-    res = tlc.require_ok(tlc.run('MC_GenFault', cfg_text=FAULT_CFG % (lo, hi, 'FALSE'), workers=core.NCPU, timeout=3000), 'MC_GenFault')
+    res = tlc.require_ok(tlc.run_sharded('MC_GenFault', lambda a, b: FAULT_CFG % (a, b, 'FALSE'), lo, hi, timeout=3000), 'MC_GenFault')
     if res.violated:
         raise core.Machinery('design-level property %s violated in MC_GenFault\n%s' % (res.violated, res.out[-3000:]))
     rep.add_tlc('MC_GenFault seeds %d..%d' % (lo, hi), res)
@@ -81,9 +81,9 @@ CHECK_DEADLOCK FALSE
 def gen_models(lo: int, hi: int, with_props: bool, with_comments: bool, rep: core.Report):
     """documents together with their models ParseDoc(doc) (GenModel.tla); TLC checks the design-level
     round trip and fixpoint on each.  -> [(seed, {'doc':..., 'model':..., 'reforder': bool})]"""
-    res = tlc.require_ok(tlc.run('MC_GenModel', cfg_text=MODEL_CFG % (lo, hi, 'TRUE' if with_props else 'FALSE',
-                                                                     'TRUE' if with_comments else 'FALSE'),
-                                 workers=core.NCPU, timeout=3000), 'MC_GenModel')
+    res = tlc.require_ok(tlc.run_sharded('MC_GenModel', lambda a, b: MODEL_CFG % (a, b, 'TRUE' if with_props else 'FALSE',
+                                                                                     'TRUE' if with_comments else 'FALSE'),
+                                         lo, hi, timeout=3000), 'MC_GenModel')
     if res.violated:
         raise core.Machinery('design-level property %s violated in MC_GenModel\n%s' % (res.violated, res.out[-3000:]))
     rep.add_tlc('MC_GenModel seeds %d..%d props=%s comments=%s' % (lo, hi, with_props, with_comments), res)
